@@ -29,6 +29,7 @@ ASSUMPTIONS = [
 TRUSTED = ['decimal.Decimal (A-2)', 'dict.get', 'abs', 'min']
 EXPLANATION = 'submit/cancel/execute x buy/sell x MARKET/LIMIT/STOP from an arbitrary well-formed state against the cash-account model'
 MANIFEST = {
+    'technique': 'contract-based deductive verification: per-operation refinement of the cash-account model (z3); bounded native decimal-boundary histories for the float/real gap',
     'category': 'proof',
     'text': 'SpotExchange.on_order_submission / on_order_cancellation and Order.execute (exchange settlement + position update) '
             'are executed symbolically for every side x order type from an arbitrary state satisfying the cash-account invariant and '
